@@ -390,6 +390,10 @@ impl PoolImpl {
         let first_unpruned_slot = self.first_unpruned_slot();
         self.slot_states = self.slot_states.split_off(&first_unpruned_slot);
         self.parent_ready_tracker.prune(first_unpruned_slot);
+        self.s2n_waiting_parent_cert.retain(|_, children| {
+            children.retain(|(slot, _)| *slot >= first_unpruned_slot);
+            !children.is_empty()
+        });
         // NOTE: The finality tracker prunes its own state internally.
     }
 
@@ -585,6 +589,13 @@ impl Pool for PoolImpl {
             .parent_ready_tracker
             .handle_finalization(finalization_event);
         self.send_parent_ready_events(new_parents_ready).await;
+        // registering the parent may have decided further slots
+        self.prune();
+
+        // block's slot is already decided, there is nothing left to track for it
+        if *slot < self.first_unpruned_slot() {
+            return;
+        }
 
         self.slot_state(*slot).notify_parent_known(block_hash);
         if let Some(parent_state) = self.slot_states.get(parent_slot)
